@@ -32,3 +32,45 @@ CHECKS["C20"] = (
     "all tuples of 1..3 children over a palette of (CDS length, spliced length) pairs in every order (all tie patterns), flags none/one/several, same/mixed strands, five parent kinds; random genes and collections; one recorded finding (K2), one repaired (F15)",
     "DESIGN.md 5/C20",
 )
+
+CHECKS["C14"] = (
+    "runtime monitoring: independent BED12 reader (format invariants + decoding) evaluated on every record exported by the real to_bed12 of TranscriptInterval / FeatureInterval in both coordinate modes",
+    "complete sweep of 1..3-exon layouts x strands x object kinds x every chunk window overlapping the interval x both modes; seeded random larger intervals; one defect repaired (F4)",
+    "DESIGN.md 5/C14",
+)
+CHECKS["C18"] = (
+    "runtime monitoring: independent reference implementation of the documented priority rule and twin (re-ordered input) comparison run next to every extract / merge / filter call; LOCUS_TAG GenBank parsing of every permutation of generated feature records",
+    "all subsets of the recognised / look-alike keys in ALL insertion orders (<=5 quick, <=7 thorough), seeded merge/filter pairs, all permutations (<=6/7 features) of locus-tag-complete GenBank records; two recorded findings (K30, K31), one repaired (K32)",
+    "DESIGN.md 5/C18",
+)
+
+CHECKS["C03"] = (
+    "runtime monitoring: position-list + IUPAC-complement reference model compared with every extract_sequence / reverse_strand / split / slice / reverse_complement / append result of the real Location and Sequence classes",
+    "exhaustive small layouts x strands, all slice bounds of short sequences, all append-compatible pairs, all five nucleotide alphabets with every letter in both cases; random genomes and layouts incl. self-overlapping blocks; two defects repaired (slice with open bound/step, append of self-overlapping operands)",
+    "DESIGN.md 5/C03",
+)
+CHECKS["C07"] = (
+    "runtime monitoring: twin monitor (same spec built on the whole chromosome and on a sequence chunk) plus position / sequence / reading-frame models restricted to the chunk, evaluated on features, transcripts, CDS, genes, feature collections and annotation collections (built on a chunk and obtained by query_by_position)",
+    "seven engineered layouts x strands x start frames under EVERY window of a small genome, random transcripts under engineered and random windows, window+chunk combinations, collections; two recorded findings (K18, K8), three repaired (K5, K20, K21)",
+    "DESIGN.md 5/C07",
+)
+CHECKS["C08"] = (
+    "runtime monitoring: round-trip equality monitors (library == plus an independent deep snapshot through public accessors) for dict / schema-JSON / pickle, cross-process guid monitor (child interpreters under a PYTHONHASHSEED sweep with shuffled insertion orders), guid sensitivity / locality monitors under single-field perturbation",
+    "generated collections with genes, features, variants, all parent kinds; 16 (quick) / 256 (thorough) child interpreters; exhaustive qualifier-key orders on single objects; one recorded finding (K19), two repaired",
+    "DESIGN.md 5/C08",
+)
+CHECKS["C11"] = (
+    "runtime monitoring: independent GFF3 reader (9 columns, percent-decoding, ID/Parent/order/phase invariants) on every exported file, and export -> BioCantor parse -> structural comparison / re-export on generated collections with hostile qualifier text",
+    "seeded random collections x seven export modes (chromosome / chunk-relative, with/without FASTA, with/without sequence) with keys/values from a hostile alphabet; two recorded findings (K41, K13), four repaired (F7, F9, K4, F18)",
+    "DESIGN.md 5/C11",
+)
+CHECKS["C17"] = (
+    "runtime monitoring: independent NCBI feature-table reader on every file written by collection_to_tbl, compared with a plain-Python model of intervals, partial marks (reading-frame model + Biopython start tables), codon_start, pseudo, locus tags; reproducibility by a second export under a perturbed global random state",
+    "full grid of layouts x strands x start frames x length mod 3 x first codon x stop / in-frame stop, random multi-gene collections x 2 flavours x 3 translation tables x jump sizes / seeds; one recorded finding (K13), one repaired (F19)",
+    "DESIGN.md 5/C17",
+)
+CHECKS["C19"] = (
+    "runtime monitoring: exception-boundary monitor (classifies every escaping exception from its traceback: documented family vs internal error) and structural invariant monitors on every returned object, driven by a 344-entry constructor corruption matrix and an inspect-driven sweep of every public property/method with boundary arguments",
+    "complete corruption matrix; API sweep over fixed edge objects and seeded random objects of every class on four parent kinds; fourteen leaks repaired (see KNOWN_FINDINGS.json fixed entries)",
+    "DESIGN.md 5/C19",
+)
